@@ -26,16 +26,22 @@ const verifEnabled = true
 //	alloc / sub_ok / sub_fail            Submit: sequence allocated, item accepted, submission failed
 //	<stage>_take / _put / _drop          worker took an item, is about to forward it, dropped it on cancel
 //	apply_take / apply_deq / apply_buf   apply runner received an item, dequeued it in order, buffered it
-//	apply_cancel / apply_done            apply skipped because of cancellation, item left the apply stage
+//	apply_cancel / apply_done            apply skipped because of cancellation, maybeApply returned
+//	apply_fin                            the dequeued item is no longer in flight (item is nil, n = inFlight)
+//	pending_processed                    PendingCount() read the apply stage's processed count n (item is nil)
 //	result / result_drop                 item about to be sent on Results(), dropped on cancel
 //	pending_count                        PendingCount() returned n (item is nil)
 //
-// It must be set before Start and not changed while a pipeline runs.
+// apply_deq, apply_buf, apply_fin and pending_processed are called with the
+// apply stage's mutex held, so their order is the order of the critical
+// sections. It must be set before Start and not changed while a pipeline runs.
 var VerifTrace func(kind string, item *BlockItem, n int)
 
 // VerifStageDelay, when set, is called by a stage worker (stage "decode",
 // "validate") or the apply runner (stage "apply") between taking an item
-// and processing it, so that a harness can hold an item inside a worker.
+// and processing it, by the apply stage right after an item was dequeued in
+// order (stage "apply_deq"), and by PendingCount between its two reads (stage
+// "pending_read", item nil), so that a harness can hold an item or a reader there.
 var VerifStageDelay func(stage string, item *BlockItem)
 
 func verifTrace(kind string, item *BlockItem, n int) {
